@@ -15,7 +15,7 @@ import gen
 from cases import CaseSet, rng_for, pick_semiring, close
 
 PID = "C02"
-KINDS = ["emb", "cat_probs", "cat_logits", "cat_softmax", "bin", "gau", "poly"]
+KINDS = ["emb", "cat_probs", "cat_logits", "cat_softmax", "cat_softmax0", "bin", "gau", "poly"]
 INTEGRABLE = ["emb", "cat_probs", "cat_logits", "cat_softmax", "gau"]
 
 
@@ -57,7 +57,9 @@ def build(rng):
         sc, g = gen.gen_circuit(rng, **o)
         return mode, SF.differentiate(sc, order=rng.choice([1, 2])), g, False
     if mode in ("multiply", "intmul"):
-        kinds = [rng.choice(["emb", "cat_logits", "gau", "poly"])] if rng.random() < 0.5 else ["emb", "cat_probs", "cat_logits", "gau", "poly"]
+        kinds = [rng.choice(["emb", "cat_logits", "cat_softmax0", "cat_softmax", "gau", "poly"])] if rng.random() < 0.6 else ["emb", "cat_probs", "cat_logits", "gau", "poly"]
+        if rng.random() < 0.25:
+            kinds = [rng.choice(["cat_softmax0", "cat_softmax"])]     # log(softmax(.)) on either axis, rewritten by optimize
         if mode == "intmul":
             kinds = [rng.choice(["emb", "emb", "cat_softmax", "cat_logits"])]
         o = gen.random_opts(rng, kinds=kinds, monotone=monotone, regular=True, sd=True)
